@@ -15,7 +15,7 @@ CHECKS = {
  "C08": ("exact", "reference model: exact floor/ceil/trunc/round-half-away/fract on dyadic rationals; results compared for exact equality, trunc+fract == x", "5 C08"),
  "C09": ("exact", "round-trip and reference model: exact integer values (8/16-bit exhaustive), trunc + range check computed exactly, all routes (TryFrom by value/ref, ToPrimitive, NumCast, FromPrimitive) compared", "5 C09"),
  "C10": ("exact", "metamorphic/differential: every spelling of an operation evaluated on the same operands and compared bit-for-bit (NaN == NaN); algebraic identities compared bit-for-bit with the sign-of-zero known finding K1", "5 C10"),
- "C11": ("exact", "differential testing of two builds of the same source (default features vs no_std + libm::fma) linked into one process on identical operand words, plus each build's fma against the exactly computed correctly rounded x*y+z", "5 C11"),
+ "C11": ("exact", "differential testing of two builds of the same source (default features vs no_std + libm::fma) linked into one process on identical operand words, plus each build's fma against the exactly computed correctly rounded x*y+z; known finding K3 (sign of zero words of integer powers) recognised by entry, zero-sign-only difference and an alias-free replay", "5 C11"),
  "C12": ("exact", "complete enumeration of the constant table against a 640-bit reference (correct rounding of both words); generated operands for MIN <= x <= MAX and the angle conversions (bound 6u^2 against a 384-bit reference)", "5 C12"),
  "C13": ("exact", "sqrt/cbrt/hypot decided exactly through k-th powers of the result against (1±beta)^k x; powi against 640-bit binary powering with the (6|n|+16)u^2 bound, exact points, no-panic for every i32 incl. i32::MIN, powi(x,-n) == powi(x,n).recip() bit-for-bit", "5 C13"),
  "C14": ("hp", "differential against a 384-bit reference (exp, exp2, expm1, exp(y ln x)) with the property's floors; exact points, overflow/underflow regions, sign/parity/invalid rules, panic = violation; all 2045 integer arguments of exp2 enumerated", "5 C14"),
@@ -70,7 +70,7 @@ def main():
         ],
         "checks": checks,
         "not_applicable": na,
-        "notes": "Genuine defects found on the pinned tree (15) were repaired by fix: commits in /repo and are listed in known_findings.json (status fixed); four sign-of-zero findings of C10 are listed there with status known (KNOWN-FINDING lines, exit 0); see DESIGN.md section 6. seeded/ holds 400 independently written breaking changes with which the checks were exercised (DESIGN.md section 11).",
+        "notes": "Genuine defects found on the pinned tree (15) were repaired by fix: commits in /repo and are listed in known_findings.json (status fixed); four sign-of-zero findings of C10 and one of C11 (integer powers across the two configurations) are listed there with status known (KNOWN-FINDING lines, exit 0); see DESIGN.md section 6. seeded/ holds 400 independently written breaking changes with which the checks were exercised (DESIGN.md section 11).",
     }
     json.dump(m, open("MANIFEST.json", "w"), indent=1)
     print("checks:", len(checks), "not_applicable:", len(na))
